@@ -43,8 +43,9 @@ def sh(cmd, timeout=600, env=None):
 
 
 def match_finding(findings, prop, ob):
+    """prop=None: any property's open finding"""
     for f in findings:
-        if prop not in f["properties"] or f.get("status") == "fixed":
+        if (prop is not None and prop not in f["properties"]) or f.get("status") == "fixed":
             continue
         if "obligation" in f and not re.search(f["obligation"], ob["name"]):
             continue
@@ -77,11 +78,15 @@ def main() -> int:
     crashed = [r for r in results if r["status"] == "crash"]
     undecided_units = [r for r in results if r["status"] == "undecided"]
     obls = []
+    supporting = []  # obligations of the same units that carry other properties' tags: the proof of this property
+    # rests on the whole invariant, so a *new* failure among them undermines it as well
     for r in results:
         for o in r["obligations"]:
+            o["unit"] = r["unit"]
             if prop in o["props"]:
-                o["unit"] = r["unit"]
                 obls.append(o)
+            else:
+                supporting.append(o)
     covers = [o for o in obls if o.get("kind") == "cover"]
     goals = [o for o in obls if o.get("kind") != "cover"]
     proved = [o for o in goals if o["verdict"] == "proved"]
@@ -97,6 +102,10 @@ def main() -> int:
             known_hits.setdefault(f["id"], (f, []))[1].append(o)
         else:
             violations.append(o)
+    supporting_failed = [o for o in supporting if o["verdict"] == "failed" and match_finding(findings, None, o) is None]
+    for o in supporting_failed:
+        o["supporting"] = True
+        violations.append(o)
     still_unknown = []
     for o in unknown:
         f = match_finding(findings, prop, o)
@@ -180,6 +189,9 @@ def main() -> int:
             "reach_covers": {"total": len(covers), "vacuous": len(vacuous)},
             "extraction_drops": front.EXTRACTION_DROPS,
             "assumed_contracts": registry.ASSUMED_CONTRACTS,
+            "supporting_obligations": {"total": len(supporting), "discharged": len([o for o in supporting if o["verdict"] in ("proved", "reachable")]),
+                                       "new_failures": [o["name"] for o in supporting_failed][:20],
+                                       "note": "obligations of the same units tagged with other properties (the invariant is proved as a whole); failures among them that are not a listed finding of any property are reported as violations of this property too"},
             "known_findings": {fid: {"what_fails": f["what_fails"], "obligations": sorted({o['name'] for o in os_})[:20]} for fid, (f, os_) in known_hits.items()},
             "undecided": [o["name"] for o in still_unknown][:40] + [r["unit"] + ": " + str(r["error"]) for r in undecided_units],
             "replays": replays,
